@@ -1,0 +1,31 @@
+// SPDX-License-Identifier: MIT
+
+//go:build verif
+
+package syntax
+
+import "github.com/issue9/mux/v9/types"
+
+// 以下内容仅用于验证工具，通过 verif 标签启用，不影响正常的编译结果。
+
+// VerifSplitString 导出 splitString
+func VerifSplitString(str string) []string { return splitString(str) }
+
+// VerifLongestPrefix 导出 longestPrefix
+func VerifLongestPrefix(s1, s2 string) int { return longestPrefix(s1, s2) }
+
+// VerifSegment 返回 Segment 的各个字段
+func (seg *Segment) VerifFields() (value, name, rule, suffix string, typ Type, endpoint, ignoreName bool, ambiguousLength int) {
+	return seg.Value, seg.Name, seg.rule, seg.Suffix, seg.Type, seg.Endpoint, seg.ignoreName, int(seg.ambiguousLength)
+}
+
+// VerifMatch 以 path 调用 Segment.Match，返回是否匹配、捕获的参数以及剩余的路径。
+func (seg *Segment) VerifMatch(path string) (ok bool, params map[string]string, rest string) {
+	ctx := types.NewContext()
+	defer ctx.Destroy()
+	ctx.Path = path
+	ok = seg.Match(ctx)
+	params = map[string]string{}
+	ctx.Range(func(k, v string) { params[k] = v })
+	return ok, params, ctx.Path
+}
